@@ -4678,9 +4678,11 @@ def _form_to_layout(
         array_starts = numpy.asarray(starts)
         if len(array_starts) != length:
             array_starts = array_starts[:length]
+            starts = _index_form_to_index[form.starts](array_starts)
         array_stops = numpy.asarray(stops)
         if len(array_stops) != length:
             array_stops = array_stops[:length]
+            stops = _index_form_to_index[form.stops](array_stops)
         array_stops = array_stops[array_starts != array_stops]
         content = _form_to_layout(
             form.content,
